@@ -318,6 +318,8 @@ def gen_scenario(rng):
         q = rng.choice([bref["sold"] or 3, rng.randint(1, 40), 5, 10])
         price = bref["fmv"] + Fraction(rng.randint(2000, 6000), 100)     # clearly away from the sell-to-cover price
         price = Fraction(int(price * 1000), 1000) if era == "post" else Fraction(int(price * 100), 100)
+        if era == "post" and rng.random() < 0.3:
+            price += Fraction(rng.randint(1, 99), 100000)       # an average fill price quoted to five decimals
         trades.append({"sym": rng.choice(syms), "td": td, "sd": td + datetime.timedelta(days=2), "qty": q, "price": price,
                        "comm": Fraction(495, 100), "fee": Fraction(rng.randint(1, 30), 100), "for": None})
     # open-market purchases: confirmations that can never be part of a sell-to-cover
@@ -444,7 +446,7 @@ def render_files(rng, sc):
 
 
 def price3(fr):
-    s = gen.dec_str(Fraction(int(fr * 1000), 1000), 3)
+    s = gen.dec_str(Fraction(int(fr * 100000), 100000), 5)
     if "." not in s:
         s += ".00"
     elif len(s.split(".")[1]) == 1:
